@@ -1,3 +1,4 @@
+import XmppModel.Model.Header
 import XmppModel.Model.Stanza
 import XmppModel.Model.Encoder
 import XmppModel.Lemmas.Stanza
@@ -262,6 +263,53 @@ theorem C13_paths_agree_fails_empty_iq_type :
     by_cases h : t = "" <;>
       simp [reflectNew, reflectLoop, reflectStep, marshalAttrs, startAttrs, startName, marshalName, attr0, langAttr,
         nsXML, Kind.loc, h]
+
+/-! ### Texts with characters XML cannot carry (round F, review B C13-1c) -/
+
+/-- what the wire does to a text field (`xml.EscapeText` writes U+FFFD for a code point that is not
+an XML character; tied to the real encoder + decoder by the `fix` lines): the result consists of XML
+characters only, the substitution is idempotent — so a text that went through once round-trips
+exactly from then on — and it is the identity exactly on texts of XML characters, which is why the
+round-trip theorems (stated for all strings of the token model) describe the real codec under
+assumption[0] only. -/
+theorem C13_nonxml_substitution (t : List Char) :
+    (∀ c ∈ t.map Header.fixChar, Header.xmlChar c = true) ∧
+    (t.map Header.fixChar).map Header.fixChar = t.map Header.fixChar ∧
+    ((∀ c ∈ t, Header.xmlChar c = true) ↔ t.map Header.fixChar = t) := by
+  have hx : ∀ c, Header.xmlChar (Header.fixChar c) = true := by
+    intro c
+    unfold Header.fixChar
+    split
+    · assumption
+    · decide
+  have hid : ∀ c, Header.xmlChar c = true → Header.fixChar c = c := by
+    intro c h; simp [Header.fixChar, h]
+  refine ⟨?_, ?_, ?_, ?_⟩
+  · intro c hc
+    obtain ⟨d, _, rfl⟩ := List.mem_map.mp hc
+    exact hx d
+  · rw [List.map_map]
+    apply List.map_congr_left
+    intro c _
+    exact hid _ (hx c)
+  · intro h
+    induction t with
+    | nil => rfl
+    | cons a t ih =>
+      simp only [List.map_cons]
+      rw [hid a (h a (List.mem_cons_self ..)), ih (fun c hc => h c (List.mem_cons_of_mem _ hc))]
+  · intro h c hc
+    have : Header.fixChar c = c := by
+      induction t with
+      | nil => cases hc
+      | cons a t ih =>
+        simp only [List.map_cons, List.cons.injEq] at h
+        rcases List.mem_cons.mp hc with rfl | hc
+        · exact h.1
+        · exact ih h.2 hc
+    rw [← this]; exact hx c
+
+example : "a\x01b\uFFFE".toList.map Header.fixChar = "a\uFFFDb\uFFFD".toList := by decide
 
 /-! ### Wrapping helpers -/
 
